@@ -35,17 +35,27 @@ impl<'de> Deserializer<'de> for MockDe {
 	}
 }
 
-struct W { writes: usize, bytes: usize, fail: bool }
+// A writer that may accept data only in short pieces (any 1..=len bytes per write call) and logs what it accepted.
+struct W { writes: usize, bytes: usize, fail: bool, log: [u8; 4] }
+impl W { fn new(fail: bool) -> W { W { writes: 0, bytes: 0, fail, log: [0; 4] } } }
 impl Write for W {
-	fn write(&mut self, buf: &[u8]) -> io::Result<usize> { self.writes += 1; if self.fail { return Err(io::ErrorKind::StorageFull.into()); } self.bytes += buf.len(); Ok(buf.len()) }
-	fn write_all(&mut self, buf: &[u8]) -> io::Result<()> { self.writes += 1; if self.fail { return Err(io::ErrorKind::StorageFull.into()); } self.bytes += buf.len(); Ok(()) }
+	fn write(&mut self, buf: &[u8]) -> io::Result<usize> {
+		self.writes += 1;
+		if self.fail { return Err(io::ErrorKind::StorageFull.into()); }
+		if buf.is_empty() { return Ok(0); }
+		let k: usize = kani::any();
+		kani::assume(k >= 1 && k <= buf.len());
+		let mut i = 0; while i < k { if self.bytes + i < 4 { self.log[self.bytes + i] = buf[i]; } i += 1; }
+		self.bytes += k;
+		Ok(k)
+	}
 	fn flush(&mut self) -> io::Result<()> { Ok(()) }
 }
 
 /// ensure_one_use: first call Ok and marks the output used; every later call is refused; `used` never goes back.
 #[kani::proof]
 fn toml_ensure_one_use_contract() {
-	let mut out = Output::new(W { writes: 0, bytes: 0, fail: false });
+	let mut out = Output::new(W::new(false));
 	let used0: bool = kani::any();
 	out.used = used0;
 	let r = out.ensure_one_use();
@@ -61,7 +71,7 @@ fn toml_ensure_one_use_contract() {
 #[kani::unwind(3)]
 #[kani::stub(::toml::to_string_pretty, to_string_pretty_contract)]
 fn toml_second_use_refused_before_any_work() {
-	let mut out = Output::new(W { writes: 0, bytes: 0, fail: false });
+	let mut out = Output::new(W::new(false));
 	out.used = true;
 	let k: u8 = kani::any(); kani::assume(k < 4);
 	let r = out.transcode_from(MockDe { kind: k });
@@ -76,7 +86,7 @@ fn toml_second_use_refused_before_any_work() {
 /// deserializer: Err, zero writer calls, and the single use is consumed (a later document is refused).
 /// One harness per root kind: a toml::Value whose variant is symbolic cannot be dropped under CBMC.
 fn non_table_root(k: u8) {
-	let mut out = Output::new(W { writes: 0, bytes: 0, fail: false });
+	let mut out = Output::new(W::new(false));
 	let r = out.transcode_from(MockDe { kind: k });
 	assert!(r.is_err(), "a non-table root was accepted");
 	assert!(unsafe { DE_TOUCHED });
@@ -105,7 +115,7 @@ fn toml_failed_deserialization_consumes_the_use() { non_table_root(3); }
 /// output_value on every non-table variant, payload symbolic: Err(NonTableRoot), zero writer calls, the TOML
 /// serializer is never invoked.
 fn output_value_rejects(k: u8) {
-	let mut out = Output::new(W { writes: 0, bytes: 0, fail: false });
+	let mut out = Output::new(W::new(false));
 	let v = match k {
 		0 => ::toml::Value::Boolean(kani::any()),
 		1 => ::toml::Value::Integer(kani::any()),
@@ -140,7 +150,7 @@ fn to_string_pretty_contract<T: ?Sized + ser::Serialize>(_value: &T) -> Result<S
 	let n: usize = kani::any(); kani::assume(n >= 1 && n <= 3);
 	unsafe { DOC_LEN = n; }
 	let mut s = String::with_capacity(4);
-	let mut i = 0; while i < n { s.push('a'); i += 1; }
+	let mut i = 0; while i < n { s.push((b'a' + i as u8) as char); i += 1; }
 	Ok(s)
 }
 
@@ -148,15 +158,15 @@ fn to_string_pretty_contract<T: ?Sized + ser::Serialize>(_value: &T) -> Result<S
 // seed does not influence anything observed here (the table is empty and never hashed).
 fn fixed_random_state() -> std::hash::RandomState { unsafe { std::mem::transmute::<(u64, u64), std::hash::RandomState>((1, 2)) } }
 
-/// Table root: exactly one write_all of exactly the serializer's document on success; zero writes when the
-/// serializer refuses the value; a failing writer surfaces as Err.
+/// Table root: the writer receives exactly the serializer's document (also when it only takes short pieces);
+/// zero writes when the serializer refuses the value; a failing writer surfaces as Err.
 #[kani::proof]
 #[kani::unwind(5)]
 #[kani::stub(::toml::to_string_pretty, to_string_pretty_contract)]
 #[kani::stub(std::hash::RandomState::new, fixed_random_state)]
 fn toml_table_root_written_once() {
 	let fail: bool = kani::any();
-	let mut out = Output::new(W { writes: 0, bytes: 0, fail });
+	let mut out = Output::new(W::new(fail));
 	let v = ::toml::Value::Table(::toml::Table::new());
 	let r = out.output_value(&v);
 	let ok = r.is_ok();
@@ -166,9 +176,12 @@ fn toml_table_root_written_once() {
 		assert!(PRETTY_CALLS == 1);
 		if DOC_LEN == 0 { assert!(!ok && out.w.writes == 0, "bytes written although the TOML serializer refused the value"); }
 		else {
-			assert!(out.w.writes == 1, "the document must be handed to the writer in exactly one write_all");
 			assert!(ok == !fail, "writer failure must surface");
-			if ok { assert!(out.w.bytes == DOC_LEN); }
+			if ok {
+				// a writer that takes short pieces still receives exactly the document, in order (C12)
+				assert!(out.w.bytes == DOC_LEN, "the writer did not receive the whole document");
+				let mut i = 0; while i < DOC_LEN { assert!(out.w.log[i] == b'a' + i as u8, "document bytes out of order"); i += 1; }
+			}
 		}
 		kani::cover!(ok); kani::cover!(DOC_LEN == 0); kani::cover!(DOC_LEN > 0 && fail);
 	}
